@@ -102,6 +102,31 @@ def gen_scope(runner, tier, seed):
     for m in (mcast_mac4(twin), bytes([1, 0, 0x5e, 0x8b, 12, 13]), bytes([1, 0, 0x5e, 0x0b, 12, 14])):
         fr += [f for _, f in base_requests(m, C4, twin, C6, S6)]
     s.send(fr)
+    # multicast MACs are derived per family: the IPv4 group prefix with the low bits of a handled IPv6
+    # address (or the reverse) is not ours; several handled addresses may share one group MAC
+    a4, b4 = "170.153.136.119", "10.25.136.119"              # same low 23 bits
+    a6, b6, c6 = "2001:db8:1::aabb:ccdd", "2001:db8:2::11bb:ccdd", "2001:db8:3::1"   # a6, b6: same low 24 bits
+    for sl in ([a4, a6], [a4, b4, a6, b6, c6], [a6, b6], [b6, a6, c6]):
+        cfg = Config(SMAC, sl, [D4, D6], KEYS[1], "none", 0)
+        s = runner.session(cfg, "scope several self addresses %s" % (sl,))
+        fr = []
+        l4s = [ip(x)[1:] for x in (a4, b4)]
+        l6s = [ip(x)[13:] for x in (a6, b6, c6)]
+        ms = [mcast_mac4(a4), mcast_mac6(a6), mcast_mac6(c6)]
+        ms += [bytes([1, 0, 0x5e]) + bytes([x[0] & 0x7f, x[1], x[2]]) for x in l6s]          # IPv4 prefix, IPv6 low bits
+        ms += [bytes([0x33, 0x33, 0xff]) + bytes([x[0] & 0x7f, x[1], x[2]]) for x in l4s]    # IPv6 prefix, IPv4 low bits
+        ms += [bytes([0x33, 0x33, 0xff]) + bytes(x) for x in l4s]
+        for m in ms:
+            for d4 in (a4, b4):
+                for d6 in (a6, b6, c6):
+                    fr += [f for _, f in base_requests(m, C4, d4, C6, d6)]
+        for t6 in (a6, b6, c6, O6):
+            for m in (mac(SMAC), mcast_mac6(t6)):
+                fr.append(eth(m, CMAC, 0x86DD, ipv6(C6, solicited_node(t6), 58, nd_ns(C6, solicited_node(t6), t6, b"\x01\x01" + mac(CMAC)), hlim=255)))
+                fr.append(eth(m, CMAC, 0x86DD, ipv6(C6, t6, 58, nd_ns(C6, t6, t6), hlim=255)))
+        for t4 in (a4, b4, O4):
+            fr.append(eth(b"\xff" * 6, CMAC, 0x0806, arp(1, CMAC, C4, "00:00:00:00:00:00", t4)))
+        s.send(fr)
     # random addresses against a random self list
     n = 4 if tier == "quick" else 40
     for k in range(n):
@@ -176,6 +201,27 @@ def tcp_opts(k):
     return {}
 
 
+def l3_variant(f, k):
+    """The same datagram in another wrapping, for the k-th frame of a batch: Ethernet padding after the
+    IP datagram, IPv4 options (IHL 6 / 15), or both.  Most frames are left alone."""
+    if k % 11 not in (4, 8, 9) or len(f) < 34:
+        return f
+    v4 = f[12:14] == b"\x08\x00"
+    pad = b"\0" * (4 if k % 11 == 4 else 6) if k % 11 in (4, 9) else b""
+    if v4 and k % 11 in (8, 9) and (f[14] & 15) == 5:
+        opts = b"\x01\x01\x01\x00" if k % 2 else b"\x07\x27\x04" + b"\0" * 37          # NOPs+EOL, or record route (40 bytes)
+        hdr = bytearray(f[14:34])
+        hdr[0] = 0x40 | (5 + len(opts) // 4)
+        tl = struct.unpack(">H", hdr[2:4])[0] + len(opts)
+        hdr[2:4] = struct.pack(">H", tl)
+        hdr[10:12] = b"\0\0"
+        full = bytes(hdr) + opts
+        c = csum(full)
+        full = full[:10] + struct.pack(">H", c) + full[12:]
+        f = f[:14] + full + f[34:]
+    return f + pad
+
+
 def tcp_batch(s, flows):
     """flows: list of (peer, sport, dport, isn, [segments]).  Sends all SYNs, then all data."""
     syns = [p.tcp(sp, dp, isn, 0, F_SYN, **({"doff": 6, "options": MSS_OPT} if i % 7 == 2 else {}))
@@ -188,7 +234,8 @@ def tcp_batch(s, flows):
         ck = tcp_fields(bytes(o["rep"]))["seq"]
         cur = (isn + 1) & 0xFFFFFFFF
         for seg in segs:
-            data.append(p.tcp(sp, dp, cur, (ck + 1) & 0xFFFFFFFF, F_PSH | F_ACK, seg, **tcp_opts(len(data))))
+            f = p.tcp(sp, dp, cur, (ck + 1) & 0xFFFFFFFF, F_PSH | F_ACK, seg, **tcp_opts(len(data)))
+            data.append(l3_variant(f, len(data)))
             cur = (cur + len(seg)) & 0xFFFFFFFF
     return s.send(data)
 
@@ -254,6 +301,8 @@ def gen_wellformed(runner, tier, seed):
         fr.append(p4.echo(n & 0xffff, 1, data))
         fr.append(p6.echo(n & 0xffff, 1, data))
     s.send(fr)
+    s = runner.session(cfg_plain(), "wf answers near and beyond the 16-bit length fields")
+    s.send(giants())
     # requests whose own checksums are wrong (the responder does not validate them; what it emits must still be right)
     s = runner.session(cfg_plain(), "wf requests with wrong checksums")
     fr = []
@@ -406,6 +455,20 @@ def gen_zero_checksum(runner, tier, r):
 # ------------------------------------------------------------------ C05
 def gen_arp_nd_echo(runner, tier, seed):
     r = rng_for(seed, "C05")
+    # several handled addresses, some sharing a solicited-node group / RFC 1112 group: each one is answered for
+    a4, b4 = "170.153.136.119", "10.25.136.119"
+    a6, b6, c6 = "2001:db8:1::aabb:ccdd", "2001:db8:2::11bb:ccdd", "2001:db8:3::1"
+    for sl in ([a4, b4, a6, b6, c6], [b6, a6], [c6, b6, a6, b4, a4]):
+        s = runner.session(Config(SMAC, sl, None, KEYS[0], "none", 0), "arp/nd/echo several self addresses")
+        fr = []
+        for t6 in (a6, b6, c6, O6):
+            fr.append(eth(mcast_mac6(t6), CMAC, 0x86DD, ipv6(C6, solicited_node(t6), 58, nd_ns(C6, solicited_node(t6), t6, b"\x01\x01" + mac(CMAC)), hlim=255)))
+            fr.append(eth(SMAC, CMAC, 0x86DD, ipv6(C6, t6, 58, nd_ns(C6, t6, t6), hlim=255)))
+            fr.append(Peer(CMAC, SMAC, C6, t6).echo(1, 2, b"multi"))
+        for t4 in (a4, b4, O4):
+            fr.append(eth(b"\xff" * 6, CMAC, 0x0806, arp(1, CMAC, C4, "00:00:00:00:00:00", t4)))
+            fr.append(Peer(CMAC, SMAC, C4, t4).echo(1, 2, b"multi"))
+        s.send(fr)
     for cfg in (cfg_plain(), cfg_self()):
         s = runner.session(cfg, "arp/nd/echo self=%s" % (cfg.self_ips,))
         cm = mac(CMAC)
@@ -732,7 +795,7 @@ def gen_tcp_gate(runner, tier, seed):
             kind, flags, pay, ack = st[idx[k]]
             idx[k] += 1
             kw = tcp_opts(r.randrange(60))
-            frames.append(f.data(pay, ack, flags, **kw) if kind == "data" else f.raw(flags, pay, ack, **kw))
+            frames.append(l3_variant(f.data(pay, ack, flags, **kw) if kind == "data" else f.raw(flags, pay, ack, **kw), r.randrange(44)))
             if r.random() < 0.15:
                 frames.append(noise(r))
         s.send(frames)
@@ -957,9 +1020,9 @@ def send_payloads(runner, label, payloads, r, tier, cfg=None, tcp=True, udp=True
     if udp:
         fr = []
         for pl in payloads:
-            fr.append(p4.udp(r.randrange(65536), r.randrange(65536), pl))
+            fr.append(l3_variant(p4.udp(r.randrange(65536), r.randrange(65536), pl), len(fr)))
             if v6:
-                fr.append(p6.udp(r.randrange(65536), r.randrange(65536), pl))
+                fr.append(l3_variant(p6.udp(r.randrange(65536), r.randrange(65536), pl), len(fr)))
         s.send(fr)
     if tcp:
         port = [1024]
@@ -1023,7 +1086,39 @@ def gen_http(runner, tier, seed):
            b"GET  / HTTP/1.1\r\n\r\n", b"GET / HTTP/1.1", b"GET / HTTP/1.1\r\n", b"GET / HTTP/1.1\r\nHost: x\r\n", b"GET /", b"GET / ",
            b"PROPFIND / HTTP/1.1\r\n\r\n", b"GET / HTTP/1.1\r\nNoColonHere\r\n\r\n", b"GET / HTTP/1.1\nNoColon\n\n",
            b"GET / HTTP/1.1\r\n\r\nGET / HTTP/1.1\r\n\r\n", b"GET /\xff\xfe\xfd HTTP/1.1\r\n\r\n", b"GET /" + b"A" * 1200 + b" HTTP/1.1\r\n\r\n"]
+    # long targets with bytes that are not ASCII / not UTF-8 around every small offset
+    hot = [0x80, 0xff, 0xc3, 0xa9, 0xe2, 0x82, 0xac, 0xf0]
+    longs = []
+    for k in range(40 if tier == "quick" else 400):
+        n = r.choice([60, 62, 63, 64, 65, 66, 70, 127, 128, 129, 255, 256, 300])
+        t = bytearray(rb(r, n, list(range(97, 123))))
+        for _ in range(r.randrange(1, 6)):
+            t[r.randrange(max(1, n - 8), n) if r.random() < 0.5 else r.randrange(n)] = r.choice(hot)
+        for o in (61, 62, 63):
+            if o < n and r.random() < 0.5:
+                t[o] = r.choice(hot)
+        longs.append(http_request(r.choice(HTTP_VERBS), b"/" + bytes(t), eol=r.choice([b"\r\n", b"\n"])))
+    pl += longs
     send_payloads(runner, "http grammar and single faults", pl, r, tier)
+    # the same under every diagnostic verbosity (the outcome must not depend on what is printed)
+    for lvl in (1, 3):
+        sample = longs + r.sample(pl, 60 if tier == "quick" else 600)
+        send_payloads(runner, "http at verbosity %d" % lvl, sample, r, tier, cfg=Config(SMAC, None, None, KEYS[0], "none", lvl), v6=False)
+    # several requests one after the other on one flow (each completed by its own segment, or cut)
+    s = runner.session(cfg_plain(), "http successive requests on one flow")
+    flows = []
+    for i in range(12 if tier == "quick" else 200):
+        reqs = [http_request(r.choice(HTTP_VERBS), b"/" + rb(r, r.randrange(0, 9), list(range(97, 123))), eol=r.choice([b"\r\n", b"\n"]),
+                             headers=[b"Host: h"] * r.choice([0, 1])) for _ in range(r.choice([2, 2, 3, 4]))]
+        segs = []
+        for q in reqs:
+            if r.random() < 0.4:
+                c = r.randrange(1, len(q))
+                segs += [q[:c], q[c:]]
+            else:
+                segs.append(q)
+        flows.append((r.choice([peer4(), peer6()]), 21000 + i, r.choice([80, 8080, r.randrange(65536)]), r.randrange(1 << 32), segs))
+    tcp_batch(s, flows)
     # byte by byte over TCP for a sample
     s = runner.session(cfg_plain(), "http byte by byte")
     flows = []
@@ -1065,6 +1160,8 @@ def gen_dns(runner, tier, seed):
         rest = total - 1 - 64 * 3
         pl.append(dns_query(total, 0x0100, [(b"a" * 63, b"b" * 63, b"c" * 63, b"d" * (rest - 1))]))
     for n in (5, 8, 16, 32, 64):
+        pl.append(dns_query(n, 0x0100, [(bytes([97 + i % 26]),) for i in range(n)]))
+    for n in (255, 256, 257, 300):                       # counts crossing one byte
         pl.append(dns_query(n, 0x0100, [(bytes([97 + i % 26]),) for i in range(n)]))
     # longest names
     pl.append(dns_query(7, 0x0100, [(b"a" * 63, b"b" * 63, b"c" * 63, b"d" * 61)]))
@@ -1686,6 +1783,19 @@ def mutations(f, r, tier):
     return out
 
 
+def giants():
+    """Requests whose answers approach or exceed what the 16-bit length fields of UDP / IP can carry
+    (the DNS answer is about 3.4 times the query), and echo data near the IP maximum."""
+    out = []
+    for n in (1024, 2700, 2729, 2730, 2740, 3300, 3400):
+        q = dns_query(n & 0xffff, 0x0100, [(b"a",) for _ in range(n)])
+        out.append(peer4().udp(4000, 53, q))
+        out.append(peer6().udp(4000, 53, q))
+    out.append(peer4().echo(1, 1, b"e" * 60000))
+    out.append(peer6().echo(1, 1, b"e" * 60000))
+    return out
+
+
 def c01_seeds(r):
     p4, p6 = peer4(), peer6()
     cm = mac(CMAC)
@@ -1756,6 +1866,8 @@ def gen_crash(runner, tier, seed):
             part = muts[ci::len(cfgs)] + muts[(ci + 1) % len(cfgs)::len(cfgs)][:1000]
         s.send(seeds)
         s.send(core)
+        if ci % 4 == 0 or tier != "quick":
+            s.send(giants())
         for ch in chunks(part, 3000):
             s.reset()                 # also a cut point for the validation chunks
             s.send(ch)
